@@ -270,6 +270,23 @@ CHECKS["C12"] = dict(
          "individual evaluations are not observable (covered by C06). The surrogate run is skipped if moptipy's "
          "BiPopCMAES fails to write its restart log (dependency defect outside this repository).")
 
+CHECKS["C19"] = dict(
+    category="model_checking", design_ref="DESIGN.md section 2 (C19)",
+    technique="token grammars of the text forms and their inverses in TLA+, model-checked to invert on all small "
+              "objects; real write/read round trips (compact instance strings, packing/game-plan/ordering texts, CSV "
+              "tables of results and statistics from tiny real runs) compared field by field by TLC",
+    text="MC_Text.tla: InstTokens/InstFromTokens and Flatten/Unflatten invert on all small instances/matrices. "
+         "Trace_Text: the compact string of random, degenerate, storage-edge, tall-bin (rotate-only items), dense and "
+         "shipped instances follows the grammar (times only if > 1), re-parses, and every projected field incl. item "
+         "count, area, lower bound and dtype is equal; packing, game-plan and ordering texts are the row-major "
+         "flattening and parse back; PackingResult and PackingStatistics tables built from real runs with differing "
+         "algorithm, optimised objective, encoding and budget kind survive to_csv/from_csv with every flattened field "
+         "equal.",
+    note="This is encode/decode fidelity, for which the specification is thin (grammar + equality): claimed as round-trip "
+         "equality over the enumerated and sampled object space. One genuine defect found and fixed (2e6fa31). moptipy's "
+         "own EndStatistics budget representation (int vs degenerate statistics) is normalised (dependency, not under "
+         "test). Instances with total area >= 2^31 are skipped here.")
+
 NOT_YET = {
 }
 
